@@ -905,7 +905,7 @@ Definition c16_run (toks : list (list N)) : list (list N) :=
   end.
 
 (* ---------------- C19 ---------------- *)
-From TT Require Import Model.ShutdownM.
+From TT Require Import Model.ShutdownM Generated.ShutdownFacts.
 
 Fixpoint c19_mask (f : participant -> bool) (l : list participant) (bit : N) : N :=
   match l with
@@ -971,6 +971,29 @@ Definition c20_scrub (toks : list (list N)) : list (list N) :=
   | _ => REJECT_TOK
   end.
 
+(* C19 on the real endpoint: sessions of the transports in [mask] are live, the shutdown is submitted, the clients
+   finish what they have open once they saw the goodbye, the coordinator waits for completion.
+   in: [mask].  out: [established; listener returned; wound-down mask; completion returned; completion early; accepts] *)
+Definition c19_front (toks : list (list N)) : list (list N) :=
+  match toks with
+  | [mask] :: _ =>
+    let bits := filter (fun b => negb (N.land mask b =? 0)) [1; 2; 4; 8; 16] in
+    let k := S (length bits) in                       (* the listener is participant 0 *)
+    let idx := seq 0 k in
+    let hist := repeat Register k ++ map Wait idx ++ [Submit] in
+    let s1 := srun hist in
+    let all_observed := forallb p_observed (parts s1) in
+    (* a QUIC session (bit 4) may have lost its feed by the time it runs: the listener has observed too *)
+    let wound (b : N) :=
+      match session_poll SESSIONS_SAY_GOODBYE_WHEN_FEED_STOPS all_observed (b =? 4) false with
+      | Goodbye => true | _ => false end in
+    let s2 := fold_left sstep (map Finish idx ++ [Complete]) s1 in
+    [[mask; if all_observed then 1 else 0;
+      fold_left N.add (filter wound bits) 0;
+      if completion_done s2 then 1 else 0; 0; 0]]
+  | _ => REJECT_TOK
+  end.
+
 From TT Require Import Generated.TimeoutFacts Model.Listener.
 (* C14: establishment. in: [http2; est; tcp_T] against a peer that never answers.  out: [status; when] *)
 Definition c14_establish (toks : list (list N)) : list (list N) :=
@@ -980,6 +1003,19 @@ Definition c14_establish (toks : list (list N)) : list (list N) :=
     | EFailed t => if t <=? 3 * est + 500 then [[502; 1]] else [[0; 2]]
     | EConnected _ => [[200; 0]]
     end
+  | _ => REJECT_TOK
+  end.
+
+(* C14: the timers of the real listener. in: [kind; handshake_T; listener_T].  out: [closed; when] *)
+Definition c14_front (toks : list (list N)) : list (list N) :=
+  match toks with
+  | [kind; hs; lt] :: _ =>
+    if kind <=? 1 then
+      match establish (CLIENT_HELLO_UNDER_HANDSHAKE_TIMEOUT && TLS_ACCEPT_UNDER_HANDSHAKE_TIMEOUT) hs 100000000 None with
+      | EFailed t => if t <=? 3 * hs + 500 then [[1; 1]] else [[0; 2]]
+      | EConnected _ => [[0; 0]]
+      end
+    else if closed_by_timer (lrun LISTENER_TIMEOUT_SPARES_ACTIVE_SESSIONS [LExpire]) then [[1; 1]] else [[0; 2]]
   | _ => REJECT_TOK
   end.
 
